@@ -23,7 +23,7 @@ use simple_dns::{
 use crate::fw::{
     self, Ctx, Property, Rng, Tier, Typed,
     rt::{E1Hook, run_e1, yields},
-    simdisk::{DiskFault, SimDisk, crash_image},
+    simdisk::{DiskFault, DiskOp, SimDisk, crash_image},
 };
 
 const ORIGIN: &str = "dns.example.";
@@ -959,19 +959,35 @@ fn run_crash(case: &DurCase, ctx: &Ctx) {
         drop(server);
         yields(6).await;
     });
-    // ---- crash enumeration over every prefix of the disk log ----
-    let log = disk.log();
     let fired = disk.0.lock().unwrap().fault_fired;
     if fired {
         ctx.count("fault.disk_error_injected");
     }
     let commits = commits.lock().unwrap().clone();
     let published = published.lock().unwrap().clone();
-    let mut rng = Rng::new(case.seed ^ 0xC4A5);
+    if !check_crash_images(ctx, &disk.log(), &commits, &published, true, case.seed) {
+        return;
+    }
+    if disk.log().len() > 10 && !commits.is_empty() {
+        ctx.nontrivial();
+    }
+}
+
+/// Simulates a crash after every prefix of the disk log, reopens the image through redb recovery
+/// and checks both tables. `require_committed`: every packet whose batch committed before the crash
+/// (or a newer one) must be there — not demanded when the workload also evicts.
+fn check_crash_images(ctx: &Ctx, log: &[DiskOp], commits: &[(usize, Vec<String>)], published: &[(u8, SignedPacket)], require_committed: bool, seed: u64) -> bool {
+    // ---- crash enumeration over every prefix of the disk log ----
+    let mut rng = Rng::new(seed ^ 0xC4A5);
     let mut torn_total = 0;
     let mut unsynced_points = 0;
-    for prefix in 0..=log.len() {
-        let (image, n_unsynced, _persisted, torn) = crash_image(&log, prefix, &mut rng);
+    // crash workloads: every prefix; eviction workloads (long logs): at most ~400 evenly spaced
+    // prefixes plus the final state
+    let step = if require_committed { 1 } else { (log.len() / 400).max(1) };
+    let mut checked = 0u64;
+    for prefix in (0..=log.len()).filter(|p| p % step == 0 || *p == log.len()) {
+        checked += 1;
+        let (image, n_unsynced, _persisted, torn) = crash_image(log, prefix, &mut rng);
         torn_total += torn as u64;
         if n_unsynced > 0 {
             unsynced_points += 1;
@@ -989,17 +1005,17 @@ fn run_crash(case: &DurCase, ctx: &Ctx) {
                     continue;
                 }
                 ctx.violate("reopen-after-crash-failed", format!("crash after {prefix} of {} disk ops: {e:#}", log.len()));
-                return;
+                return false;
             }
         };
         ctx.count("probe.crash_points_checked");
         // required: for each key the newest packet whose commit preceded the crash
         let mut required: BTreeMap<u8, &SignedPacket> = BTreeMap::new();
-        for (at, ups) in &commits {
-            if *at <= prefix {
+        for (at, ups) in commits {
+            if require_committed && *at <= prefix {
                 for u in ups {
                     let parts: Vec<&str> = u.split(' ').collect();
-                    for (k, sp) in &published {
+                    for (k, sp) in published {
                         let h = sp.as_bytes().iter().fold(0xcbf2_9ce4_8422_2325u64, |h, b| (h ^ *b as u64).wrapping_mul(0x0000_0100_0000_01B3));
                         if parts.len() == 3 && parts[0] == z32(*k) && parts[2] == format!("{h:016x}") {
                             let e = required.entry(*k).or_insert(sp);
@@ -1015,12 +1031,12 @@ fn run_crash(case: &DurCase, ctx: &Ctx) {
         for (key, value) in &packets {
             let Some(k) = (0..3u8).find(|k| secret(*k).public().as_bytes() == key) else {
                 ctx.violate("unknown-key-after-crash", format!("crash after {prefix} ops"));
-                return;
+                return false;
             };
             let body = if value.len() >= 8 { &value[8..] } else { &value[..] };
             let Some((_, sp)) = published.iter().find(|(pk, sp)| *pk == k && sp.as_bytes() == body) else {
                 ctx.violate("stored-packet-is-not-a-published-packet", format!("crash after {prefix} of {} ops: key k{k} holds {} bytes that match no published packet", log.len(), body.len()));
-                return;
+                return false;
             };
             stored.insert(k, sp.clone());
         }
@@ -1028,12 +1044,12 @@ fn run_crash(case: &DurCase, ctx: &Ctx) {
             match stored.get(k) {
                 None => {
                     ctx.violate("committed-packet-lost-after-crash", format!("crash after {prefix} of {} disk ops: key k{k} has no packet although a batch containing one had committed", log.len()));
-                    return;
+                    return false;
                 }
                 Some(sp) => {
                     if req.more_recent_than(sp) {
                         ctx.violate("committed-packet-rolled-back-after-crash", format!("crash after {prefix} ops: key k{k} holds ts {} but ts {} had committed", sp.timestamp().as_micros(), req.timestamp().as_micros()));
-                        return;
+                        return false;
                     }
                 }
             }
@@ -1048,15 +1064,13 @@ fn run_crash(case: &DurCase, ctx: &Ctx) {
                 "expiry-index-inconsistent-after-crash",
                 format!("crash after {prefix} of {} ops: index rows {:?}, stored packets imply {:?}", log.len(), got_idx.iter().map(|x| x.0).collect::<Vec<_>>(), want_idx.iter().map(|x| x.0).collect::<Vec<_>>()),
             );
-            return;
+            return false;
         }
     }
-    ctx.add("fault.crash_points", log.len() as u64 + 1);
+    ctx.add("fault.crash_points", checked);
     ctx.add("fault.torn_writes", torn_total);
     ctx.add("probe.crash_points_with_unsynced_writes", unsynced_points);
-    if log.len() > 10 && !commits.is_empty() {
-        ctx.nontrivial();
-    }
+    true
 }
 
 fn run_eviction(case: &DurCase, e: &EvictCase, ctx: &Ctx) {
@@ -1065,26 +1079,37 @@ fn run_eviction(case: &DurCase, e: &EvictCase, ctx: &Ctx) {
     let ctx2 = ctx.clone();
     let evicted: Arc<Mutex<Vec<(String, tokio::time::Instant)>>> = Default::default();
     let hook = E1Hook::install(ctx, case.seed, &[]);
+    let disk = SimDisk::new();
+    let commits: Arc<Mutex<Vec<(usize, Vec<String>)>>> = Default::default();
+    let published: Arc<Mutex<Vec<(u8, SignedPacket)>>> = Default::default();
     {
         let ev = evicted.clone();
+        let commits = commits.clone();
+        let disk = disk.clone();
         *hook.0.on_event.lock().unwrap() = Some(Box::new(move |site, data| {
             if site == "store.evict" {
                 ev.lock().unwrap().push((data.to_string(), tokio::time::Instant::now()));
             }
+            if site == "store.commit" {
+                commits.lock().unwrap().push((disk.log_len(), vec![]));
+            }
         }));
     }
+    let (disk2, published2) = (disk.clone(), published.clone());
     run_e1(case.seed, false, ctx, async move {
         let ctx = ctx2;
         let t0 = tokio::time::Instant::now();
         let wall0 = EPOCH0 + 10_000_000_000_000;
         *hook.0.wall.lock().unwrap() = Some((wall0, t0, 0));
-        let server = open(SimDisk::new(), &case.cfg, Duration::from_secs(e.retention_s), Duration::from_secs(e.interval_s));
+        let published = published2;
+        let server = open(disk2, &case.cfg, Duration::from_secs(e.retention_s), Duration::from_secs(e.interval_s));
         let mut packets: Vec<(u8, u64)> = vec![]; // (key, ts micros)
         for (i, (k, age)) in e.ages_s.iter().enumerate() {
             // one packet per key: later packets for a key must be newer to be stored
             let ts = (wall0 as i64 - age * 1_000_000 + i as i64) as u64;
             let p = Publish { signer: *k, path_key: None, ts: ts as i64 - EPOCH0 as i64, recs: vec![Rec { label: 0, zone: Zone::Own, kind: RecKind::Txt }], corrupt_signature: false, truncate_body: false, republish_of: None };
             let built = build_packet(&p, i as u32 + 1);
+            published.lock().unwrap().push((*k, SignedPacket::from_bytes(&built.bytes).unwrap()));
             let status = server.pkarr_put(&z32(*k), Bytes::from(built.bytes[32..].to_vec())).await;
             ctx.ev(format!("publish k{k} age={age}s -> {status}"));
             packets.push((*k, ts));
@@ -1103,6 +1128,7 @@ fn run_eviction(case: &DurCase, e: &EvictCase, ctx: &Ctx) {
             let server = server.clone();
             let hook_wall = hook.0.clone();
             let republished = republished.clone();
+            let published = published.clone();
             let ctx = ctx.clone();
             let n_old = e.ages_s.len() as u32;
             tokio::task::spawn_local(async move {
@@ -1116,6 +1142,7 @@ fn run_eviction(case: &DurCase, e: &EvictCase, ctx: &Ctx) {
                 let ts = (now - 1_000_000) as u64;
                 let p = Publish { signer: k, path_key: None, ts: ts as i64 - EPOCH0 as i64, recs: vec![Rec { label: 0, zone: Zone::Own, kind: RecKind::Txt }], corrupt_signature: false, truncate_body: false, republish_of: None };
                 let built = build_packet(&p, n_old + 10 + n as u32);
+                published.lock().unwrap().push((k, SignedPacket::from_bytes(&built.bytes).unwrap()));
                 let status = server.pkarr_put(&z32(k), Bytes::from(built.bytes[32..].to_vec())).await;
                 ctx.ev(format!("republish k{k} at {at_ms} ms ts={ts} -> {status}"));
                 if (200..300).contains(&status) {
@@ -1189,6 +1216,17 @@ fn run_eviction(case: &DurCase, e: &EvictCase, ctx: &Ctx) {
         drop(server);
         yields(4).await;
     });
+    // crash consistency of the evicting store: after a crash at any (sampled) point of this
+    // publish/evict workload the store reopens, holds only published packets and its expiry
+    // index matches them exactly; the last prefix is the final state without a crash
+    if ctx.violated() {
+        return;
+    }
+    let commits = commits.lock().unwrap().clone();
+    let published = published.lock().unwrap().clone();
+    if check_crash_images(ctx, &disk.log(), &commits, &published, false, case.seed) {
+        ctx.count("probe.eviction_workload_crash_enumerated");
+    }
 }
 
 fn real_vs_stub() -> Value {
@@ -1245,5 +1283,5 @@ prop!(C38, "C38", "exploration",
     "case = swarm config + a publisher task (1..4 publishes of increasing timestamp for one key) racing a resolver task (2..8 DNS lookups or pkarr GETs) with seeded gaps (none / yields / ms) and seeded yields at the two in-tree schedule points (after the store read in resolve, after the upsert acknowledgement in insert); non-trivial = some lookup was invoked before a later acknowledgement; distinct = distinct history hash",
     15_000, 1_000_000, vec!["single-threaded interleavings at await points plus the two named schedule points".into()]);
 prop!(C39, "C39", "fault_enumeration",
-    "two kinds of case. Crash: swarm config + 1..5 publishes with gaps; the live run logs every disk write/set_len/sync; afterwards a crash is simulated after EVERY prefix of that log (durable image + PRNG subset of unsynced writes, possibly torn at 512-byte sectors), the image is reopened through redb recovery and both tables are checked (exhaustive over crash points per run, runs sampled); optionally one EIO/ENOSPC is injected in the live run. Eviction: 1..5 packets with ages on both sides of the retention cut-off, wall-clock step mid-run; fresh republishes for the same keys land on the eviction ticks (between the evict task's snapshot and its expiry checks); every eviction event is checked against the cut-off at removal time and after a settle every expired packet must be gone and every unexpired one still served. non-trivial = >10 disk ops and >=1 commit, or any eviction case; distinct = distinct history hash",
+    "two kinds of case. Crash: swarm config + 1..5 publishes with gaps; the live run logs every disk write/set_len/sync; afterwards a crash is simulated after EVERY prefix of that log (durable image + PRNG subset of unsynced writes, possibly torn at 512-byte sectors), the image is reopened through redb recovery and both tables are checked (exhaustive over crash points per run, runs sampled); optionally one EIO/ENOSPC is injected in the live run. Eviction: 1..5 packets with ages on both sides of the retention cut-off, wall-clock step mid-run; fresh republishes for the same keys land on the eviction ticks (between the evict task's snapshot and its expiry checks); every eviction event is checked against the cut-off at removal time and after a settle every expired packet must be gone and every unexpired one still served; the disk log of the eviction workload is crash-enumerated too (every prefix, or ~400 evenly spaced ones for long logs, plus the final state): the image must reopen, hold only published packets and an expiry index that matches them exactly (committed-packet durability is not demanded there, since eviction legitimately removes). non-trivial = >10 disk ops and >=1 commit, or any eviction case; distinct = distinct history hash",
     4_000, 300_000, vec!["lying disks (sync returns Ok without persisting) are not simulated".into(), "an image crashed before the database's very first commit may be unopenable and is skipped (counted)".into(), "evaluations counts runs; fault.crash_points counts the individual crash images checked".into()]);
